@@ -185,8 +185,11 @@ def conclude(prop, pack, pack_name, a, seed, t0, results, params_of, extra_cov=N
     # ---- report -------------------------------------------------------------------------------
     print(f"[{prop}] tier={a.tier} units={len(results)} paths={paths} obligations={n_proof} discharged={n_disch} "
           f"bounded-obligations={bounded['obligations']} solver-queries={queries} solver_s={solver_s:.1f} wall={wall:.1f}s")
+    seen = {}
     for kf, oid in known_hits:
-        print(f"KNOWN-FINDING: property={prop} {kf['id']} {kf['what']} [{oid}]")
+        seen.setdefault(kf['id'], [kf, 0])[1] += 1
+    for fid, (kf, n) in seen.items():
+        print(f"KNOWN-FINDING: property={prop} {fid}: {kf['what']} ({n} obligation instance(s) on this run)")
     for uid, why in undecided_units:
         print(f"UNDECIDED unit {uid}: {why}")
     for oid, why in undecided[:50]:
